@@ -119,3 +119,36 @@ def expand_ites(t, limit=64):
     if k == "call" and len(t[3]) == 1 and not t[4] and t[2][0] == "builtin":
         return [(g, ("call", t[1], t[2], (a,), t[4])) for g, a in expand_ites(t[3][0], limit)]
     return [((), t)]
+
+
+_POS = {"!=": "==", ">=": "<", "<=": ">", "not in": "in", "is not": "is"}
+
+
+def atomize(lit):
+    """(atom, truth value): comparisons with a negative operator are the negation of their positive twin."""
+    c, pol = lit
+    if c[0] == "cmp" and c[1] in _POS:
+        return ("cmp", _POS[c[1]], c[2], c[3]), not pol
+    return c, bool(pol)
+
+
+def dnf_covers(conj, alternatives) -> bool:
+    """Does the conjunction imply the disjunction of the alternative conjunctions?  Decided by enumerating the truth values of the atoms
+    the alternatives mention and the conjunction leaves open (at most 10 atoms; more -> False)."""
+    base = dict(atomize(l) for l in conj)
+    alts = [[atomize(l) for l in a] for a in alternatives]
+    free = []
+    for a in alts:
+        for atom, _ in a:
+            if atom not in base and atom not in free:
+                free.append(atom)
+    if len(free) > 10:
+        return False
+    import itertools
+
+    for vals in itertools.product((False, True), repeat=len(free)):
+        env = dict(base)
+        env.update(zip(free, vals))
+        if not any(all(env.get(atom) == v for atom, v in a) for a in alts):
+            return False
+    return True
